@@ -337,7 +337,7 @@ func (w h2Writer) CloseWrite() error {
 }
 
 func (p proxyHandler) writeErrorResponse(rw http.ResponseWriter, req *http.Request, err error) {
-	res := maybeConnectErrorResponse(err)
+	res := maybeConnectErrorResponse(req, err)
 	var challenge []string
 	if res == nil {
 		res = p.errorResponse(req, err)
